@@ -96,6 +96,13 @@ func vhDefOddNames() Rules {
 	}
 }
 
+// rules whose whole pattern is a literal with multi-byte characters, next to a
+// rule that accepts any single byte
+func vhDefLiteralMB() Rules {
+	return Rules{"Root": {{"Arrow", `→`, nil}, {"E", `é`, Push("In")}, {"Ch", `(?s).`, nil}},
+		"In": {{"Arrow", `→`, Pop()}, {"Ch", `(?s).`, nil}}}
+}
+
 func vhDefString() Rules { // README-style interpolated string
 	return Rules{
 		"Root":   {{"String", `"`, Push("String")}, {"Ident", `[a-z]+`, nil}},
